@@ -135,7 +135,7 @@ class C18(SeqProp):
     props_file = "Props/C18.v"
     focus = "mix"
     quick_cases = 250
-    thorough_cases = 400
+    thorough_cases = 2000
     assumptions = [
         "the switched sequence is compared with the original on: channel names, slot kinds/times/targets, pulse samples and phases, EOM blocks, and the sampled amplitude/detuning/phase arrays",
     ]
@@ -190,6 +190,13 @@ class C18(SeqProp):
             return v
         seq = run["seq"]
         if not seq._schedule:
+            return v
+        # switch_device enumerates every assignment of the declared channels to the new device's
+        # channels (itertools.product): (number of device channels) ** (number of declared channels)
+        # candidates.  Sequences for which that search is astronomically large are not switched here
+        # (a cost of the implementation's algorithm, not a subject of the property).
+        n_new = len(case["device2"]["channels"]) + len(case["device2"].get("dmms", []))
+        if n_new ** len(seq.declared_channels) > 20000:
             return v
 
         def bad(sig, what):
